@@ -281,6 +281,13 @@ Section Sim.
     destruct Hin as [->|Hin]; [apply fold_gwd_keeps_absent, gwd_removes | apply IH, Hin].
   Qed.
 
+  (** writing the value a key already has leaves the dictionary as it is *)
+  Lemma dset_same k v (d : list (K * attrs)) : dget eqb k d = Some v -> dset eqb k v d = d.
+  Proof.
+    induction d as [|[k0 v0] d IH]; cbn; [discriminate|].
+    destruct (eqb k k0); [intros H; inversion H; reflexivity | intros H; rewrite IH by exact H; reflexivity].
+  Qed.
+
   (** a sequence of messages *)
   Lemma run_sim {S U} (step : S -> U -> S) (tbl : S -> list (K * attrs)) (ver : S -> N)
         (ops : U -> list (op K attrs)) :
@@ -773,3 +780,147 @@ Lemma directions_independent b s u :
   (rib_in (send_step s u) = rib_in s /\ recv_v (send_step s u) = recv_v s /\
    forall f, get_recv (send_step s u) f = get_recv s f).
 Proof. exact (conj (recv_step_frame_send b s u) (send_step_frame_recv s u)). Qed.
+
+(** * prefixes as sent: the key of the Adj-RIB-In is the prefix up to its padding bits *)
+Definition same_wprefix (w w' : wprefix) : Prop :=
+  snd w = snd w' /\ fst w / 2 ^ (32 - snd w) = fst w' / 2 ^ (32 - snd w).
+Definition same_wupdate (a b : wupdate) : Prop :=
+  w_attr a = w_attr b /\ Forall2 same_wprefix (w_nlri a) (w_nlri b) /\
+  Forall2 same_wprefix (w_withdraw a) (w_withdraw b).
+
+Lemma parse_prefix_same w w' : same_wprefix w w' -> parse_prefix w = parse_prefix w'.
+Proof.
+  destruct w as [v l], w' as [v' l']. unfold same_wprefix, parse_prefix. cbn [fst snd].
+  intros [<- H]. rewrite H. reflexivity.
+Qed.
+
+(** and only up to padding: different prefixes (length at most 32) get different keys *)
+Lemma parse_prefix_inj w w' : snd w <= 32 -> snd w' <= 32 ->
+  parse_prefix w = parse_prefix w' -> same_wprefix w w'.
+Proof.
+  destruct w as [v l], w' as [v' l']. unfold same_wprefix, parse_prefix, pfx. cbn [fst snd].
+  intros Hl Hl' H.
+  set (a := v / 2 ^ (32 - l) * 2 ^ (32 - l)) in *.
+  set (b := v' / 2 ^ (32 - l') * 2 ^ (32 - l')) in *.
+  assert (E : l = l' /\ a = b) by lia. destruct E as [<- E]. split; [reflexivity|].
+  subst a b. apply N.mul_cancel_r in E; [exact E|]. apply N.pow_nonzero. discriminate.
+Qed.
+
+Theorem prefix_key_exact (w w' : wprefix) : snd w <= 32 -> snd w' <= 32 ->
+  (parse_prefix w = parse_prefix w' <-> same_wprefix w w').
+Proof. intros H H'. split; [apply parse_prefix_inj; assumption | apply parse_prefix_same]. Qed.
+
+Lemma map_parse_same l l' : Forall2 same_wprefix l l' -> List.map parse_prefix l = List.map parse_prefix l'.
+Proof. induction 1 as [|x y l l' H _ IH]; cbn; [reflexivity|]. rewrite (parse_prefix_same x y H), IH. reflexivity. Qed.
+
+Lemma decode_same a b : same_wupdate a b -> decode_update a = decode_update b.
+Proof.
+  intros (Ha & Hn & Hw). unfold decode_update.
+  rewrite Ha, (map_parse_same _ _ Hn), (map_parse_same _ _ Hw). reflexivity.
+Qed.
+
+Theorem padding_irrelevant b ws ws' : Forall2 same_wupdate ws ws' ->
+  forall s, fold_left (recv_wire b) ws s = fold_left (recv_wire b) ws' s.
+Proof.
+  induction 1 as [|w w' ws ws' H _ IH]; intros s; cbn [fold_left]; [reflexivity|].
+  unfold recv_wire at 2 4. rewrite (decode_same w w' H). apply IH.
+Qed.
+
+Lemma fold_recv_wire b ws : forall s,
+  fold_left (recv_wire b) ws s = fold_left (recv_step b) (List.map decode_update ws) s.
+Proof. induction ws as [|w ws IH]; intros s; cbn [fold_left List.map]; [reflexivity | apply IH]. Qed.
+
+Theorem rib_in_refines_wire ws :
+  map_eq N.eqb (rib_in (fold_left (recv_wire true) ws new_conn))
+         (fold_left spec_apply (List.map decode_update ws) empty).
+Proof. rewrite fold_recv_wire. apply rib_in_refines. Qed.
+
+(** * an identical re-announcement changes nothing (IPv4 table and counter, both directions) *)
+Lemma fst_ann_step a st q : fst (ann_step a st q) = dset N.eqb q a (fst st).
+Proof.
+  unfold ann_step. destruct (dget N.eqb q (fst st)) as [old|]; [destruct (attrs_eqb a old)|]; reflexivity.
+Qed.
+
+Lemma ann_step_keeps a st p q :
+  dget N.eqb p (fst st) = Some a -> dget N.eqb p (fst (ann_step a st q)) = Some a.
+Proof.
+  intros H. rewrite fst_ann_step. rewrite (dget_lookup N.eqb) in *.
+  rewrite (lookup_dset N.eqb N_eqb_eq'). destruct (p =? q); [reflexivity | exact H].
+Qed.
+
+Lemma ann_step_binds a st p : dget N.eqb p (fst (ann_step a st p)) = Some a.
+Proof.
+  rewrite fst_ann_step. rewrite (dget_lookup N.eqb), (lookup_dset N.eqb N_eqb_eq'), N.eqb_refl. reflexivity.
+Qed.
+
+Lemma fold_ann_keeps a ps : forall st p, dget N.eqb p (fst st) = Some a ->
+  dget N.eqb p (fst (fold_left (ann_step a) ps st)) = Some a.
+Proof.
+  induction ps as [|q ps IH]; intros st p H; cbn [fold_left]; [exact H | apply IH, ann_step_keeps, H].
+Qed.
+
+Lemma fold_ann_binds a ps : forall st p, In p ps ->
+  dget N.eqb p (fst (fold_left (ann_step a) ps st)) = Some a.
+Proof.
+  induction ps as [|q ps IH]; intros st p Hin; [destruct Hin|]. cbn [fold_left].
+  destruct Hin as [->|Hin]; [apply fold_ann_keeps, ann_step_binds | apply IH, Hin].
+Qed.
+
+Lemma ann_step_noop a (st : list (prefix * attrs) * N) p :
+  dget N.eqb p (fst st) = Some a -> ann_step a st p = st.
+Proof.
+  intros H. unfold ann_step. rewrite H.
+  assert (E : attrs_eqb a a = true) by (apply attrs_eqb_eq; reflexivity). rewrite E.
+  rewrite (dset_same N.eqb p a (fst st) H). destruct st; reflexivity.
+Qed.
+
+Lemma fold_ann_noop a ps : forall (st : list (prefix * attrs) * N),
+  (forall p, In p ps -> dget N.eqb p (fst st) = Some a) -> fold_left (ann_step a) ps st = st.
+Proof.
+  induction ps as [|q ps IH]; intros st H; cbn [fold_left]; [reflexivity|].
+  rewrite (ann_step_noop a st q) by (apply H; left; reflexivity).
+  apply IH. intros p Hp. apply H. right. exact Hp.
+Qed.
+
+Lemma loops_idem u st : u_withdraw u = [] ->
+  rib_ipv4_loops u (rib_ipv4_loops u st) = rib_ipv4_loops u st.
+Proof.
+  intros Hw. unfold rib_ipv4_loops. rewrite Hw. cbn [fold_left].
+  apply fold_ann_noop. intros p Hp. apply fold_ann_binds, Hp.
+Qed.
+
+Theorem recv_reannounce_noop s u : u_withdraw u = [] ->
+  let s1 := recv_step true s u in
+  rib_in (recv_step true s1 u) = rib_in s1 /\
+  v_ipv4 (recv_v (recv_step true s1 u)) = v_ipv4 (recv_v s1).
+Proof.
+  intros Hw. cbn zeta.
+  assert (G : forall s, rib_in (recv_step true s u) =
+                        (if negb (is_nil (u_nlri u) && is_nil (u_withdraw u))
+                         then fst (rib_ipv4_loops u (rib_in s, v_ipv4 (recv_v s))) else rib_in s) /\
+                        v_ipv4 (recv_v (recv_step true s u)) =
+                        (if negb (is_nil (u_nlri u) && is_nil (u_withdraw u))
+                         then snd (rib_ipv4_loops u (rib_in s, v_ipv4 (recv_v s))) else v_ipv4 (recv_v s))).
+  { intros s0. unfold recv_step. destruct (recv_ver_frame s0 (u_attr u)) as (F1 & F2 & _).
+    cbn [andb]. destruct (negb (is_nil (u_nlri u) && is_nil (u_withdraw u))).
+    - unfold update_rib_in_ipv4. cbn [rib_in recv_v set_recv_ipv4 v_ipv4]. rewrite F1, F2. split; reflexivity.
+    - split; assumption. }
+  destruct (G (recv_step true s u)) as [A B]. destruct (G s) as [C D].
+  rewrite A, B. destruct (negb (is_nil (u_nlri u) && is_nil (u_withdraw u))); [|split; reflexivity].
+  rewrite C, D. rewrite <- surjective_pairing. rewrite (loops_idem u _ Hw). split; reflexivity.
+Qed.
+
+Theorem send_reannounce_noop s u : u_withdraw u = [] ->
+  let s1 := send_step s u in
+  rib_out (send_step s1 u) = rib_out s1 /\
+  v_ipv4 (send_v (send_step s1 u)) = v_ipv4 (send_v s1).
+Proof.
+  intros Hw. cbn zeta.
+  assert (G : forall s, rib_out (send_step s u) = fst (rib_ipv4_loops u (rib_out s, v_ipv4 (send_v s))) /\
+                        v_ipv4 (send_v (send_step s u)) = snd (rib_ipv4_loops u (rib_out s, v_ipv4 (send_v s)))).
+  { intros s0. unfold send_step.
+    destruct (send_ver_frame (update_rib_out_ipv4 s0 u) (u_attr u)) as (F1 & F2 & _).
+    rewrite F1, F2. unfold update_rib_out_ipv4. cbn [rib_out send_v set_recv_ipv4 v_ipv4]. split; reflexivity. }
+  destruct (G (send_step s u)) as [A B]. destruct (G s) as [C D].
+  rewrite A, B, C, D. rewrite <- surjective_pairing. rewrite (loops_idem u _ Hw). split; reflexivity.
+Qed.
